@@ -41,6 +41,9 @@ type MQuery struct {
 
 // Model is the sequential reference model of a world.
 type Model struct {
+	// HID is the entity ID part of the handle the primary world issued for each EID (generation bias only:
+	// it lets the generator aim at "stale handle whose ID was recycled", never used by an oracle).
+	HID     []uint32
 	Ents    []MEnt
 	Epoch0  int // first EID of the current epoch (entities before it were issued before the last Reset)
 	NAlive  int
